@@ -181,6 +181,9 @@ func (c *Ctx) MatrixKind(s *Schema) string {
 		return "any"
 	}
 	if p, ok := PrimOf(s); ok {
+		if p.Layout() != "" {
+			return "datetime-layout"
+		}
 		return p.Name
 	}
 	return "string"
